@@ -760,6 +760,16 @@ class C12:
         for suite in P.SUITES:
             keys = P.make_keys(S, suite, 2)
             flows = P.honest_sigs(S, suite, keys, [(L, "rand") for L in Ls])
+            # a vector with MORE than 256 messages, updated at positions on both sides of 255 / 256 (a generator index kept in one octet would wrap there)
+            for fb in P.honest_sigs(S, suite, keys, [(260 if tier == "quick" else 520, b"h")], label="triv:sign-large"):
+                Lb = len(fb["msgs"]); curb = list(fb["msgs"]); sigb = fb["sig"]
+                for i in ([253, 254, 255, 256, 259] if tier == "quick" else [127, 128, 253, 254, 255, 256, 257, 259, 511, 512, 519]):
+                    v = P.rb(rng, 9)
+                    r = S.run(["update %s %s %s %s %s %d %d" % (suite, tb(fb["sk"]), tb(sigb), tb(curb[i]), tb(v), i, Lb)], expect="ok", label="update(large vector)")[0]
+                    if r.status != "OK": break
+                    sigb = r.b(0); curb[i] = v; stats["steps"] += 1
+                    S.run(["verify %s %s %s %s %s" % (suite, tb(fb["pk"]), tb(sigb), tob(fb["header"]), tl(curb))], expect="ok", label="verify(update(large vector))")
+                stats["histories"] += 1
             for f in flows:
                 L = len(f["msgs"]); cur = list(f["msgs"]); sig = f["sig"]; hist = [list(cur)]
                 stats["histories"] += 1
